@@ -1340,4 +1340,351 @@ theorem F17e_client_drops_long_reply :
     ∧ clientViewL 512000 false [(Item.msg (default : GenMsg), 511999), (Item.msg (default : GenMsg), 120)]
         = ([default, default], none) := ⟨rfl, rfl, rfl⟩
 
+
+/-! ## Round 7: the streaming tool path, exactly (no guard) -/
+
+/-- what the pinned streaming tool path extracts from a chunk list: the builder is parsed at every
+    chunk and RESET when it parses — a greedy segmentation of the output at chunk boundaries -/
+def greedyCalls (parse : Bytes → List Call) : List Chunk → Bytes → List Call
+  | [], _ => []
+  | c :: cs, sb =>
+    if (parse (sb ++ c.content)).isEmpty then greedyCalls parse cs (sb ++ c.content)
+    else parse (sb ++ c.content) ++ greedyCalls parse cs []
+
+theorem setIdx_append (i : Nat) (a b : List Call) : setIdx i (a ++ b) = setIdx i a ++ setIdx (i + a.length) b := by
+  induction a generalizing i with
+  | nil => simp [setIdx]
+  | cons x xs ih => simp [setIdx, ih, Nat.add_assoc, Nat.add_comm 1]
+
+theorem aggCalls_cons (m : ChatMsg) (ms : List ChatMsg) : aggCalls (m :: ms) = m.calls ++ aggCalls ms := by
+  simp [aggCalls]
+
+theorem aggContent_cons (m : ChatMsg) (ms : List ChatMsg) : aggContent (m :: ms) = m.content ++ aggContent ms := by
+  simp [aggContent]
+
+/-- **the calls of the streaming tool path, for EVERY chunk list** (no protocol, no guard) -/
+theorem chatCallback_calls_exact (parse : Bytes → List Call) (cs : List Chunk) (sb : Bytes) (idx : Nat) :
+    aggCalls (chatCallback parse true cs sb idx) = setIdx idx (greedyCalls parse cs sb) := by
+  induction cs generalizing sb idx with
+  | nil => simp [chatCallback, greedyCalls, aggCalls, setIdx]
+  | cons c cs ih =>
+    by_cases h : (parse (sb ++ c.content)).isEmpty = true
+    · cases hd : c.done <;>
+        simp [chatCallback, greedyCalls, h, hd, aggCalls_cons, ih]
+    · simp [chatCallback, greedyCalls, h, aggCalls_cons, ih, setIdx_append]
+
+/-- **streamed `index` fields, every chunk list, every ending**: the calls of a streamed reply are
+    numbered 0,1,…,n-1 in the order they are sent — whatever the split, with or without the runner
+    protocol, with or without `PrefixStable`. -/
+theorem tools_index_all (parse : Bytes → List Call) (cs : List Chunk) (e : End) :
+    (aggCalls (msgsOf (chatStream parse true cs e))).map (·.index)
+      = List.range' 0 (aggCalls (msgsOf (chatStream parse true cs e))).length := by
+  have hst : msgsOf (chatStream parse true cs e) = chatCallback parse true cs [] 0 := by
+    simp only [chatStream, chatChan]; exact msgsOf_chan _ _
+  rw [hst, chatCallback_calls_exact, setIdx_index, setIdx_length]
+
+theorem setIdx_congr (i : Nat) (a b : List Call) (h : a.map eraseIdx = b.map eraseIdx) : setIdx i a = setIdx i b := by
+  induction a generalizing i b with
+  | nil => cases b <;> simp_all [setIdx]
+  | cons x xs ih =>
+    cases b with
+    | nil => simp at h
+    | cons y ys =>
+      simp only [List.map_cons, List.cons.injEq] at h
+      obtain ⟨h1, h2⟩ := h
+      have : ({ x with index := i } : Call) = { y with index := i } := by
+        cases x; cases y; simp_all [eraseIdx]
+      simp [setIdx, this, ih _ _ h2]
+
+/-- the content of the streaming tool path for a protocol-respecting run -/
+theorem chatCallback_content_exact (parse : Bytes → List Call) (init : List Chunk) (l : Chunk) (sb : Bytes) (idx : Nat)
+    (hnd : NoneDone init) (hl : l.done = true) (hlc : l.content = []) :
+    (aggContent (chatCallback parse true (init ++ [l]) sb idx)
+      = if idx == 0 && (greedyCalls parse (init ++ [l]) sb).isEmpty then sb ++ texts init else [])
+    ∧ ∀ d, (lastOr d (chatCallback parse true (init ++ [l]) sb idx)).info = chunkInfo l := by
+  induction init generalizing sb idx with
+  | nil =>
+    by_cases h : (parse (sb ++ l.content)).isEmpty = true
+    · have h' : (parse sb).isEmpty = true := by simpa [hlc] using h
+      constructor
+      · simp [chatCallback, greedyCalls, hl, aggContent, hlc, h']
+      · intro d; simp [chatCallback, h, hl]
+    · have h' : (parse sb).isEmpty = false := by simpa [hlc] using h
+      constructor
+      · simp [chatCallback, greedyCalls, aggContent, hlc, h']
+      · intro d; simp [chatCallback, h]
+  | cons c cs ih =>
+    have hd : c.done = false := hnd c (by simp)
+    have hnd' : NoneDone cs := fun x hx => hnd x (by simp [hx])
+    by_cases h : (parse (sb ++ c.content)).isEmpty = true
+    · obtain ⟨i1, i2⟩ := ih (sb ++ c.content) idx hnd'
+      constructor
+      · simp only [List.cons_append, chatCallback, greedyCalls, h, hd, Bool.not_true, Bool.false_eq_true, ↓reduceIte]
+        rw [i1]; simp [List.append_assoc]
+      · intro d
+        simp only [List.cons_append, chatCallback, h, hd, Bool.not_true, Bool.false_eq_true, ↓reduceIte]
+        exact i2 d
+    · have hpos : 0 < (parse (sb ++ c.content)).length := by
+        cases hh : parse (sb ++ c.content) with
+        | nil => simp [hh] at h
+        | cons _ _ => simp
+      obtain ⟨i1, i2⟩ := ih [] (idx + (parse (sb ++ c.content)).length) hnd'
+      have hz : (idx + (parse (sb ++ c.content)).length == 0) = false := by
+        cases hh : idx + (parse (sb ++ c.content)).length with
+        | zero => omega
+        | succ n => rfl
+      constructor
+      · simp only [List.cons_append, chatCallback, greedyCalls, h, Bool.not_true, Bool.false_eq_true, ↓reduceIte,
+          Bool.not_false, aggContent_cons, i1, hz, Bool.false_and, List.nil_append]
+        have : (parse (sb ++ c.content) ++ greedyCalls parse (cs ++ [l]) []).isEmpty = false := by
+          cases hh : parse (sb ++ c.content) with
+          | nil => simp [hh] at h
+          | cons _ _ => rfl
+        simp [this]
+      · intro d
+        simp only [List.cons_append, chatCallback, h, Bool.not_true, Bool.false_eq_true, ↓reduceIte, Bool.not_false,
+          lastOr_cons]
+        exact i2 _
+
+
+theorem chatOnceH_ok_snoc (v : Variant) (parse : Bytes → List Call) (tools hist : Bool) (init : List Chunk) (l : Chunk)
+    (hl : l.done = true) :
+    chatOnceH v .none parse tools hist (init ++ [l]) .ok =
+      .ok (if tools && !(parse (texts (init ++ [l]))).isEmpty
+      then { content := [], calls := if v.toolsIndex then setIdx 0 (parse (texts (init ++ [l]))) else parse (texts (init ++ [l])),
+                 info := chunkInfo l }
+      else { content := texts (init ++ [l]), calls := [], info := chunkInfo l }) := by
+  have h1 : (List.map (fun x : ChatMsg => x.content) (List.map chatMsgOf (init ++ [l]))).flatten = texts (init ++ [l]) := by
+    simp [texts, chatMsgOf, List.map_map, Function.comp_def]
+  have h2 : lastOr (default : ChatMsg) (List.map chatMsgOf (init ++ [l])) = chatMsgOf l := by
+    rw [List.map_append]; exact lastOr_append_singleton _ _ _
+  simp only [chatOnceH, Fault.chatPre, chatItemsH, Bool.and_false, Bool.false_eq_true, ↓reduceIte,
+    chatCallback_unbuffered, endItemsV, sawDone_snoc init l hl, Bool.not_true, List.append_nil, onceLoop_msgs,
+    List.nil_append, h1, h2]
+  split <;> simp [chatMsgOf]
+
+/-- **Streamed = non-streamed with tools, EXACTLY (the tree as it is: F17b repaired, F17a present).**
+    For a protocol-respecting run whose final message is empty (what the real runner sends) and a
+    parser that finds nothing in the empty text: the aggregated stream — concatenated contents,
+    concatenated tool calls WITH their indices, last message's reason and counts — equals the
+    `stream:false` reply IF AND ONLY IF the greedy segmentation of the output at the chunk boundaries
+    finds the same calls as one parse of the whole output.  `PrefixStable` is one sufficient condition
+    (`tools_equiv_partial`); F17a is exactly the failure of the right-hand side. -/
+theorem tools_equiv_iff (v : Variant) (hv : v.toolsStream = false) (hi : v.toolsIndex = true)
+    (parse : Bytes → List Call) (hist : Bool) (init : List Chunk) (l : Chunk)
+    (hnd : NoneDone init) (hl : l.done = true) (hlc : l.content = []) :
+    ∃ o st, chatOnceH v .none parse true hist (init ++ [l]) .ok = .ok o
+      ∧ chatStreamH v .none parse true hist (init ++ [l]) .ok = .ok (st.map Item.msg)
+      ∧ (lastOr default st).info = o.info
+      ∧ ((aggContent st = o.content ∧ aggCalls st = o.calls)
+          ↔ (greedyCalls parse (init ++ [l]) []).map eraseIdx = (parse (texts (init ++ [l]))).map eraseIdx) := by
+  have hte : texts (init ++ [l]) = texts init := by simp [texts_append, hlc]
+  obtain ⟨c1, c2⟩ := chatCallback_content_exact parse init l [] 0 hnd hl hlc
+  have c3 := chatCallback_calls_exact parse (init ++ [l]) [] 0
+  refine ⟨_, chatCallback parse true (init ++ [l]) [] 0, chatOnceH_ok_snoc v parse true hist init l hl, ?_, ?_, ?_⟩
+  · simp [chatStreamH, Fault.chatPre, chatItemsH, hv, endItemsV, sawDone_snoc init l hl]
+  · rw [c2]; split <;> rfl
+  · rw [c1, c3, hi]
+    simp only [beq_self_eq_true, Bool.true_and, List.nil_append, ↓reduceIte, hte]
+    by_cases hp : (parse (texts init)).isEmpty = true
+    · have hp' : parse (texts init) = [] := List.isEmpty_iff.mp hp
+      simp only [hp', List.isEmpty_nil, Bool.not_true, Bool.false_eq_true, ↓reduceIte, List.map_nil,
+        List.map_eq_nil_iff]
+      constructor
+      · rintro ⟨_, h2⟩
+        cases hg : greedyCalls parse (init ++ [l]) [] with
+        | nil => rfl
+        | cons x xs => rw [hg] at h2; simp [setIdx] at h2
+      · intro hg; simp [hg, setIdx]
+    · have hne : parse (texts init) ≠ [] := fun e => hp (by simp [e])
+      simp only [hp, Bool.not_false, ↓reduceIte]
+      constructor
+      · rintro ⟨_, h2⟩
+        have := congrArg (List.map eraseIdx) h2
+        simpa [setIdx_erase] using this
+      · intro hg
+        have hgne : (greedyCalls parse (init ++ [l]) []).isEmpty = false := by
+          cases hh : greedyCalls parse (init ++ [l]) [] with
+          | nil => rw [hh] at hg; simp at hg; exact absurd hg.symm (fun e => hne e.symm)
+          | cons _ _ => rfl
+        exact ⟨by simp [hgne], setIdx_congr 0 _ _ hg⟩
+
+/-- non-vacuity / both directions on concrete runs: F17a's split makes the right-hand side false, the
+    unsplit output makes it true -/
+example : (greedyCalls parseF17 [nd (pieceA ++ pieceB1), nd pieceB2, fin] []).map eraseIdx
+        ≠ (parseF17 (texts [nd (pieceA ++ pieceB1), nd pieceB2, fin])).map eraseIdx
+    ∧ (greedyCalls parseF17 [nd (pieceA ++ pieceB1 ++ pieceB2), fin] []).map eraseIdx
+        = (parseF17 (texts [nd (pieceA ++ pieceB1 ++ pieceB2), fin])).map eraseIdx
+    ∧ greedyCalls parseF17 [nd (pieceA ++ pieceB1 ++ pieceB2), fin] [] = [callA, callB] := by decide
+
+
+/-! ## Round 7: finish_reason and usage on the OpenAI streaming endpoints -/
+
+/-- the `finish_reason` field of every delta / text chunk of an OpenAI stream, in order -/
+def OaEv.finish? : OaEv → Option (Option Bytes)
+  | .chunk _ _ f => some f
+  | .tchunk _ f _ => some f
+  | _ => none
+
+def OaEv.usage? : OaEv → Option Usage
+  | .usage u => some u
+  | _ => none
+
+def oaFinishes (evs : List OaEv) : List (Option Bytes) := evs.filterMap OaEv.finish?
+/-- the usage-only chunks (`choices: []`) of an OpenAI stream -/
+def oaUsages (evs : List OaEv) : List Usage := evs.filterMap OaEv.usage?
+
+theorem oaFinishes_append (a b : List OaEv) : oaFinishes (a ++ b) = oaFinishes a ++ oaFinishes b := by
+  simp [oaFinishes, List.filterMap_append]
+theorem oaUsages_append (a b : List OaEv) : oaUsages (a ++ b) = oaUsages a ++ oaUsages b := by
+  simp [oaUsages, List.filterMap_append]
+
+theorem oaTail_finishes (u : Bool) (m : Info) : oaFinishes (oaTail u m) = [] := by
+  cases u <;> rfl
+theorem oaTail_usages (u : Bool) (m : Info) : oaUsages (oaTail u m) = if u then [usageOf m] else [] := by
+  cases u <;> rfl
+
+/-- a message the callbacks build for a chunk that is not done carries no `done_reason` -/
+def Quiet (i : Info) : Prop := i.done = false ∧ i.reason = []
+
+theorem chunkInfo_quiet (c : Chunk) (h : c.done = false) : Quiet (chunkInfo c) := by
+  simp [Quiet, chunkInfo, h]
+
+theorem chatCallback_quiet (parse : Bytes → List Call) (b : Bool) (cs : List Chunk) (sb : Bytes) (idx : Nat)
+    (hnd : NoneDone cs) : ∀ m ∈ chatCallback parse b cs sb idx, Quiet m.info := by
+  induction cs generalizing sb idx with
+  | nil => intro m hm; simp [chatCallback] at hm
+  | cons c cs ih =>
+    have hd : c.done = false := hnd c (by simp)
+    have hnd' : NoneDone cs := fun x hx => hnd x (by simp [hx])
+    intro m hm
+    simp only [chatCallback] at hm
+    split at hm
+    · rcases List.mem_cons.mp hm with rfl | h
+      · exact chunkInfo_quiet c hd
+      · exact ih _ _ hnd' m h
+    · split at hm
+      · rcases List.mem_cons.mp hm with rfl | h
+        · exact chunkInfo_quiet c hd
+        · exact ih _ _ hnd' m h
+      · rw [if_neg (by simp [hd])] at hm
+        exact ih _ _ hnd' m hm
+
+theorem genCallback_quiet (raw : Bool) (pl : Nat) (cs : List Chunk) (sb : Bytes) (hnd : NoneDone cs) :
+    ∀ m ∈ genCallback raw pl cs sb, Quiet m.info := by
+  induction cs generalizing sb with
+  | nil => intro m hm; simp [genCallback] at hm
+  | cons c cs ih =>
+    intro m hm
+    simp only [genCallback] at hm
+    rcases List.mem_cons.mp hm with rfl | hm
+    · exact chunkInfo_quiet c (hnd c (by simp))
+    · exact ih _ (fun x hx => hnd x (by simp [hx])) m hm
+
+/-- the writer's `toolCallSent` flag after a list of messages = "some message so far carried calls" -/
+theorem oaChatStream_msgs_append (usage : Bool) (pre : List ChatMsg) (rest : List (Item ChatMsg)) (sent : Bool) :
+    oaChatStream usage (pre.map Item.msg ++ rest) sent
+      = oaChatStream usage (pre.map Item.msg) sent ++ oaChatStream usage rest (sent || !(aggCalls pre).isEmpty) := by
+  induction pre generalizing sent with
+  | nil => simp [oaChatStream, aggCalls]
+  | cons x xs ih =>
+    have hb : ((sent || !x.calls.isEmpty) || !(aggCalls xs).isEmpty) = (sent || !(x.calls ++ aggCalls xs).isEmpty) := by
+      cases sent <;> cases hx : x.calls <;> cases ha : aggCalls xs <;> simp
+    simp only [List.map_cons, List.cons_append, oaChatStream, asChat, ih, List.append_assoc, aggCalls_cons, hb]
+
+theorem oaChatStream_quiet (usage : Bool) (pre : List ChatMsg) (sent : Bool) (hq : ∀ m ∈ pre, Quiet m.info) :
+    oaFinishes (oaChatStream usage (pre.map Item.msg) sent) = List.replicate pre.length none
+    ∧ oaUsages (oaChatStream usage (pre.map Item.msg) sent) = [] := by
+  induction pre generalizing sent with
+  | nil => simp [oaChatStream, oaFinishes, oaUsages]
+  | cons x xs ih =>
+    obtain ⟨hd, hr⟩ := hq x (by simp)
+    obtain ⟨i1, i2⟩ := ih (sent || !x.calls.isEmpty) (fun m hm => hq m (by simp [hm]))
+    simp only [List.map_cons, oaChatStream, asChat, hd, hr, List.isEmpty_nil, ↓reduceIte, Bool.false_eq_true,
+      List.append_nil, List.singleton_append, List.length_cons, List.replicate_succ]
+    constructor
+    · simp only [oaFinishes, List.filterMap_cons, OaEv.finish?] at i1 ⊢; rw [i1]
+    · simp only [oaUsages, List.filterMap_cons, OaEv.usage?] at i2 ⊢; exact i2
+
+theorem oaCmplStream_quiet (usage : Bool) (pre : List GenMsg) (hq : ∀ m ∈ pre, Quiet m.info) :
+    oaFinishes (oaCmplStream usage (pre.map Item.msg)) = List.replicate pre.length none
+    ∧ oaUsages (oaCmplStream usage (pre.map Item.msg)) = [] := by
+  induction pre with
+  | nil => simp [oaCmplStream, oaFinishes, oaUsages]
+  | cons x xs ih =>
+    obtain ⟨hd, hr⟩ := hq x (by simp)
+    obtain ⟨i1, i2⟩ := ih (fun m hm => hq m (by simp [hm]))
+    simp only [List.map_cons, oaCmplStream, asGen, hd, hr, ↓reduceIte, Bool.false_eq_true,
+      List.append_nil, List.singleton_append, List.length_cons, List.replicate_succ]
+    constructor
+    · simp only [oaFinishes, List.filterMap_cons, OaEv.finish?] at i1 ⊢; rw [i1]; rfl
+    · simp only [oaUsages, List.filterMap_cons, OaEv.usage?] at i2 ⊢; exact i2
+
+/-- **finish_reason and usage of a streamed /v1/chat/completions.**  For every protocol-respecting
+    successful run (every split, with or without tools): every delta but the last has
+    `finish_reason: null`; the last one carries `tool_calls` if an EARLIER delta carried tool calls,
+    otherwise the native `done_reason` (null when that is empty); with `include_usage` exactly one usage
+    chunk follows, holding the final message's counts — the figures the non-streamed reply reports
+    (`openai_once_equiv`); without it there is none. -/
+theorem openai_chat_stream_finish_usage (parse : Bytes → List Call) (tools usage : Bool) (cs : List Chunk)
+    (h : RunnerOK cs .ok) :
+    ∃ (pre : List ChatMsg) (m : ChatMsg), msgsOf (chatStream parse tools cs .ok) = pre ++ [m] ∧ m.info.done = true
+      ∧ oaFinishes (oaChatStream usage (chatStream parse tools cs .ok) false)
+          = List.replicate pre.length none
+            ++ [if m.info.reason.isEmpty then none else if (aggCalls pre).isEmpty then some m.info.reason else some sToolCalls]
+      ∧ oaUsages (oaChatStream usage (chatStream parse tools cs .ok) false) = (if usage then [usageOf m.info] else []) := by
+  cases h with
+  | done init l hnd hl =>
+    obtain ⟨sb', idx', happ⟩ := chatCallback_append parse tools init [l] [] 0
+    obtain ⟨m, hm, hdone⟩ := chatCallback_done_chunk parse tools l sb' idx' hl
+    have hs : chatStream parse tools (init ++ [l]) .ok = (chatCallback parse tools init [] 0).map Item.msg ++ [Item.msg m] := by
+      simp [chatStream, chatChan, endItems, happ, hm]
+    obtain ⟨q1, q2⟩ := oaChatStream_quiet usage (chatCallback parse tools init [] 0) false
+      (chatCallback_quiet parse tools init [] 0 hnd)
+    refine ⟨chatCallback parse tools init [] 0, m, ?_, hdone, ?_, ?_⟩
+    · rw [hs, msgsOf_append, msgsOf_map_msg]; rfl
+    · rw [hs, oaChatStream_msgs_append, oaFinishes_append, q1]
+      simp only [oaChatStream, asChat, hdone, ↓reduceIte, List.append_nil, Bool.false_or]
+      rw [oaFinishes_append]
+      have : oaFinishes ((if usage = true then [OaEv.usage (usageOf m.info)] else []) ++ [OaEv.done]) = [] :=
+        oaTail_finishes usage m.info
+      rw [this]
+      cases hc : (aggCalls (chatCallback parse tools init [] 0)).isEmpty <;> simp [oaFinishes, OaEv.finish?]
+    · rw [hs, oaChatStream_msgs_append, oaUsages_append, q2]
+      simp only [oaChatStream, asChat, hdone, ↓reduceIte, List.append_nil, List.nil_append]
+      rw [oaUsages_append]
+      have : oaUsages ((if usage = true then [OaEv.usage (usageOf m.info)] else []) ++ [OaEv.done])
+          = if usage then [usageOf m.info] else [] := oaTail_usages usage m.info
+      rw [this]; simp [oaUsages, OaEv.usage?]
+
+/-- **finish_reason and usage of a streamed /v1/completions**: every text chunk but the last has
+    `finish_reason: null`, the last one the native `done_reason`; one usage chunk with the final counts
+    iff `include_usage`. -/
+theorem openai_cmpl_stream_finish_usage (raw usage : Bool) (pl : Nat) (cs : List Chunk) (h : RunnerOK cs .ok) :
+    ∃ (pre : List GenMsg) (m : GenMsg), msgsOf (genStream raw pl cs .ok) = pre ++ [m] ∧ m.info.done = true
+      ∧ oaFinishes (oaCmplStream usage (genStream raw pl cs .ok)) = List.replicate pre.length none ++ [nonEmpty? m.info.reason]
+      ∧ oaUsages (oaCmplStream usage (genStream raw pl cs .ok)) = (if usage then [usageOf m.info] else []) := by
+  cases h with
+  | done init l hnd hl =>
+    have hs : genStream raw pl (init ++ [l]) .ok
+        = (genCallback raw pl init []).map Item.msg ++ [Item.msg (genMsgOf raw pl (texts init ++ l.content) l)] := by
+      simp [genStream, genChan, endItems, genCallback_append, genCallback]
+    have hdone : (genMsgOf raw pl (texts init ++ l.content) l).info.done = true := by simp [genMsgOf, chunkInfo, hl]
+    obtain ⟨q1, q2⟩ := oaCmplStream_quiet usage (genCallback raw pl init []) (genCallback_quiet raw pl init [] hnd)
+    refine ⟨genCallback raw pl init [], _, ?_, hdone, ?_, ?_⟩
+    · rw [hs, msgsOf_append, msgsOf_map_msg]; rfl
+    · rw [hs, oaCmplStream_append, oaFinishes_append, q1]
+      simp only [oaCmplStream, asGen, hdone, ↓reduceIte, List.append_nil]
+      rw [oaFinishes_append]
+      have : oaFinishes ((if usage = true then [OaEv.usage (usageOf (genMsgOf raw pl (texts init ++ l.content) l).info)] else []) ++ [OaEv.done]) = [] :=
+        oaTail_finishes usage _
+      rw [this]; simp [oaFinishes, OaEv.finish?]
+    · rw [hs, oaCmplStream_append, oaUsages_append, q2]
+      simp only [oaCmplStream, asGen, hdone, ↓reduceIte, List.append_nil, List.nil_append]
+      rw [oaUsages_append]
+      have : oaUsages ((if usage = true then [OaEv.usage (usageOf (genMsgOf raw pl (texts init ++ l.content) l).info)] else []) ++ [OaEv.done])
+          = if usage then [usageOf (genMsgOf raw pl (texts init ++ l.content) l).info] else [] := oaTail_usages usage _
+      rw [this]; simp [oaUsages, OaEv.usage?]
+
+
 end OllamaVerif.C17
